@@ -29,6 +29,10 @@ import (
 type FromFile[K cmp.Ordered, C codec[K]] struct {
 	cur  pdf.Cursor
 	root pdf.Object
+
+	// Err is the read error which ended the most recent iteration started
+	// by All, or nil.  Malformed nodes are skipped and do not set Err.
+	Err error
 }
 
 // ExtractFromFile creates a FromFile tree that reads from a PDF document.
@@ -52,6 +56,9 @@ func (t *FromFile[K, C]) Lookup(key K) (pdf.Object, error) {
 	}
 
 	node, err := t.cur.Dict(t.root)
+	if pdf.IsReadError(err) {
+		return nil, err
+	}
 	if err != nil || node == nil {
 		return nil, ErrKeyNotFound
 	}
@@ -73,6 +80,9 @@ func (t *FromFile[K, C]) lookupInNode(node pdf.Dict, seen map[pdf.Reference]bool
 	// leaf node
 	if entries, ok := node[kc.leafKey()]; ok {
 		arr, err := t.cur.Array(entries)
+		if pdf.IsReadError(err) {
+			return nil, err
+		}
 		if err != nil {
 			return nil, ErrKeyNotFound
 		}
@@ -80,6 +90,9 @@ func (t *FromFile[K, C]) lookupInNode(node pdf.Dict, seen map[pdf.Reference]bool
 		// search through the key-value pairs
 		for i := 0; i+1 < len(arr); i += 2 {
 			k, err := kc.decode(t.cur, arr[i])
+			if pdf.IsReadError(err) {
+				return nil, err
+			}
 			if err != nil {
 				continue
 			}
@@ -93,6 +106,9 @@ func (t *FromFile[K, C]) lookupInNode(node pdf.Dict, seen map[pdf.Reference]bool
 	// intermediate node with Kids
 	if kids, ok := node["Kids"]; ok {
 		arr, err := t.cur.Array(kids)
+		if pdf.IsReadError(err) {
+			return nil, err
+		}
 		if err != nil {
 			return nil, ErrKeyNotFound
 		}
@@ -106,6 +122,9 @@ func (t *FromFile[K, C]) lookupInNode(node pdf.Dict, seen map[pdf.Reference]bool
 				seen[ref] = true
 			}
 			childNode, err := t.cur.Dict(kid)
+			if pdf.IsReadError(err) {
+				return nil, err
+			}
 			if err != nil {
 				continue
 			}
@@ -116,15 +135,24 @@ func (t *FromFile[K, C]) lookupInNode(node pdf.Dict, seen map[pdf.Reference]bool
 			}
 
 			limitsArr, err := t.cur.Array(limits)
+			if pdf.IsReadError(err) {
+				return nil, err
+			}
 			if err != nil || len(limitsArr) != 2 {
 				continue
 			}
 
 			minKey, err := kc.decode(t.cur, limitsArr[0])
+			if pdf.IsReadError(err) {
+				return nil, err
+			}
 			if err != nil {
 				continue
 			}
 			maxKey, err := kc.decode(t.cur, limitsArr[1])
+			if pdf.IsReadError(err) {
+				return nil, err
+			}
 			if err != nil {
 				continue
 			}
@@ -145,8 +173,12 @@ func (t *FromFile[K, C]) All() iter.Seq2[K, pdf.Object] {
 			return
 		}
 
+		t.Err = nil
 		node, err := t.cur.Dict(t.root)
 		if err != nil {
+			if pdf.IsReadError(err) {
+				t.Err = err
+			}
 			return
 		}
 
@@ -171,13 +203,16 @@ func (t *FromFile[K, C]) yieldFromNode(node pdf.Dict, seen map[pdf.Reference]boo
 	if entries, ok := node[kc.leafKey()]; ok {
 		arr, err := t.cur.Array(entries)
 		if err != nil {
-			return true
+			return !t.readError(err)
 		}
 
 		// yield all key-value pairs
 		for i := 0; i+1 < len(arr); i += 2 {
 			k, err := kc.decode(t.cur, arr[i])
 			if err != nil {
+				if t.readError(err) {
+					return false
+				}
 				continue
 			}
 			if !yield(k, arr[i+1]) {
@@ -191,7 +226,7 @@ func (t *FromFile[K, C]) yieldFromNode(node pdf.Dict, seen map[pdf.Reference]boo
 	if kids, ok := node["Kids"]; ok {
 		arr, err := t.cur.Array(kids)
 		if err != nil {
-			return true
+			return !t.readError(err)
 		}
 
 		// recursively yield from all children in order
@@ -204,6 +239,9 @@ func (t *FromFile[K, C]) yieldFromNode(node pdf.Dict, seen map[pdf.Reference]boo
 			}
 			childNode, err := t.cur.Dict(kid)
 			if err != nil {
+				if t.readError(err) {
+					return false
+				}
 				continue
 			}
 
@@ -214,6 +252,16 @@ func (t *FromFile[K, C]) yieldFromNode(node pdf.Dict, seen map[pdf.Reference]boo
 	}
 
 	return true
+}
+
+// readError records err in t.Err if it is a read error (as opposed to
+// malformed content) and reports whether it did.
+func (t *FromFile[K, C]) readError(err error) bool {
+	if pdf.IsReadError(err) {
+		t.Err = err
+		return true
+	}
+	return false
 }
 
 func (t *FromFile[K, C]) Embed(rm *pdf.EmbedHelper) (pdf.Native, error) {
@@ -241,6 +289,9 @@ func (t *FromFile[K, C]) Embed(rm *pdf.EmbedHelper) (pdf.Native, error) {
 	ref, err := Write[K, C](rm.Out(), entries)
 	if copyErr != nil {
 		return nil, copyErr
+	}
+	if err == nil && t != nil && t.Err != nil {
+		return nil, t.Err
 	}
 	return ref, err
 }
